@@ -538,9 +538,8 @@ Section HeapProofs.
     destruct (sl_make_spec (arrs h) 0 0 ltac:(lia)) as (E1 & E2 & E3 & E4 & E5).
     simpl in E1, E2, E3, E4, E5.
     set (st := arrs h ++ [[]]) in *. set (m := mkhdr (length (arrs h)) 0 0 0) in *.
-    destruct (update_sim h r o st m W Ho) as (U1 & U2 & U3 & U4); auto.
-    { apply sframe_app. }
-    { right. simpl. lia. }
+    destruct (update_sim h r o st m W Ho) as (U1 & U2 & U3 & U4);
+      [apply sframe_app|exact E4|right; simpl; lia|].
     eexists; split; [reflexivity|]. split; [exact U1|]. split; [|auto].
     rewrite U2, E5, Hk. reflexivity.
   Qed.
@@ -625,5 +624,290 @@ Section HeapProofs.
   Proof.
     intros h r s p W Hs. unfold h_anyMatch, h_allMatch, h_firstMatch.
     rewrite (proj1 (h_members_sim h r s W Hs)). auto.
+  Qed.
+  (** Clone: make + copy onto a fresh array *)
+  Lemma h_clone_sim : forall h r s, wfh h -> nth_error (abs h) r = Some s ->
+    exists h', h_clone T zero h r = Ok (length (objs h), h') /\ wfh h' /\
+      abs h' = abs h ++ [vclone T s] /\ tick h' = tick h.
+  Proof.
+    intros h r s W Hs. destruct (abs_obj h r s Hs) as (o & Ho & Hg & Hk & Hrd).
+    pose proof (proj1 W r o Ho) as Hwf. pose proof (wf_arr_lt _ _ Hwf) as Halt.
+    pose proof (rd_length _ _ Hwf) as Hlen.
+    unfold h_clone. rewrite Hg. simpl.
+    set (st0 := arrs h) in *. set (n := len (omem o)) in *.
+    set (st1 := st0 ++ [repeat zero n]). set (m := mkhdr (length st0) 0 n n).
+    assert (Wm1 : wf_hdr st1 m).
+    { exists (repeat zero n). unfold st1, m; simpl. rewrite nth_error_app2, Nat.sub_diag by lia. simpl.
+      rewrite repeat_length. auto. }
+    assert (F01 : forall a, sframe a st0 st1) by (intros; apply sframe_app).
+    unfold sl_copy.
+    assert (Wo1 : wf_hdr st1 (omem o)) by (apply (wf_frame _ _ _ _ (F01 0) Hwf)).
+    rewrite (sl_read_wf _ _ Wo1). simpl.
+    rewrite (rd_frame _ _ _ _ (F01 (length st0)) Hwf ltac:(lia)).
+    rewrite firstn_all2 by (change (len m) with n; lia).
+    destruct (sl_write_spec st1 m 0 (rd st0 (omem o)) Wm1 ltac:(simpl; lia)) as (st2 & a1 & Hw & F12 & Ha1 & Ha2).
+    rewrite Hw. simpl.
+    assert (a1 = repeat zero n).
+    { unfold st1, m in Ha1; simpl in Ha1. rewrite nth_error_app2, Nat.sub_diag in Ha1 by lia. simpl in Ha1. congruence. }
+    subst a1. change (arr m) with (length st0) in *.
+    assert (F02 : sframe (length st0) st0 st2) by (eapply sframe_trans; [apply F01|exact F12|now left]).
+    assert (Wm2 : wf_hdr st2 m) by (apply (wf_frame _ _ _ _ F12 Wm1)).
+    destruct (alloc_sim h (okind o) st2 m (length st0) W F02 ltac:(fold st0; lia) Wm2 ltac:(simpl; fold st0; lia)) as (R1 & R2 & R3 & R4).
+    simpl in R2, R3, R4.
+    eexists; split; [reflexivity|]. split; [exact R2|]. split; [|exact R4].
+    rewrite R3. f_equal. unfold vclone. rewrite Hk. f_equal. f_equal.
+    unfold rd. change (arr m) with (length st0). rewrite Ha2. change (off m + 0) with 0. change (len m) with n. change (off m) with 0.
+    rewrite <- Hrd. apply list_ext. intros k.
+    rewrite nth_error_sub, nth_error_put_range by (rewrite repeat_length; lia).
+    simpl. rewrite Hlen.
+    destruct (k <? n) eqn:E; [rewrite Nat.sub_0_r; reflexivity|].
+    apply Nat.ltb_ge in E. symmetry. apply nth_error_None'. lia.
+  Qed.
+
+  Lemma h_cloneEmpty_sim : forall h r s, wfh h -> nth_error (abs h) r = Some s ->
+    exists h', h_cloneEmpty T zero h r = Ok (length (objs h), h') /\ wfh h' /\
+      abs h' = abs h ++ [vcloneEmpty T s] /\ tick h' = tick h.
+  Proof.
+    intros h r s W Hs. destruct (abs_obj h r s Hs) as (o & Ho & Hg & Hk & Hrd).
+    unfold h_cloneEmpty. rewrite Hg. simpl.
+    destruct (h_new_sim h (okind o) W) as (R1 & R2 & R3 & R4). unfold h_new in *. simpl in *.
+    eexists; split; [reflexivity|]. split; [exact R2|]. split; [|exact R4]. rewrite R3, Hk. reflexivity.
+  Qed.
+  (** ** loops of the set algebra *)
+  Definition reads (h : heap) (sets : list nat) (vsets : list vset) : Prop :=
+    Forall2 (fun x sx => nth_error (abs h) x = Some sx) sets vsets.
+
+  Lemma reads_other : forall h h' t acc sets vsets, reads h sets vsets -> ~ In t sets ->
+    abs h' = set_nth (abs h) t acc -> reads h' sets vsets.
+  Proof.
+    intros h h' t acc sets vsets HR Hn Ha. unfold reads in *. induction HR as [|x sx sets vsets Hx HR IH]; constructor.
+    - rewrite Ha, nth_error_set_nth_neq; [exact Hx|]. intros ->. apply Hn. now left.
+    - apply IH. intros Hc. apply Hn. now right.
+  Qed.
+
+  Lemma reads_lt : forall h sets vsets x, reads h sets vsets -> In x sets -> x < length (objs h).
+  Proof.
+    intros h sets vsets x HR Hx. induction HR as [|y sy sets vsets Hy HR IH]; [destruct Hx|].
+    destruct Hx as [->|Hx]; [|now apply IH].
+    assert (x < length (abs h)) by (apply nth_error_Some; congruence). unfold abs in H. now rewrite map_length in H.
+  Qed.
+
+  Lemma reads_app : forall h h' sets vsets extra, reads h sets vsets -> abs h' = abs h ++ extra -> reads h' sets vsets.
+  Proof.
+    intros h h' sets vsets extra HR Ha. unfold reads in *. induction HR; constructor; auto.
+    rewrite Ha, nth_error_app1; [assumption|]. apply nth_error_Some. congruence.
+  Qed.
+
+  Lemma set_nth_app_last : forall (l : list vset) x y, set_nth (l ++ [x]) (length l) y = l ++ [y].
+  Proof. induction l; simpl; intros; auto. f_equal. auto. Qed.
+
+  Lemma nth_error_app_last : forall (l : list vset) x, nth_error (l ++ [x]) (length l) = Some x.
+  Proof. intros. rewrite nth_error_app2, Nat.sub_diag by lia. reflexivity. Qed.
+
+  Lemma abs_length : forall h, length (abs h) = length (objs h).
+  Proof. intros. unfold abs. apply map_length. Qed.
+
+  Lemma h_union_loop_sim : forall sets vsets h t acc acc' t', wfh h -> nth_error (abs h) t = Some acc ->
+    ~ In t sets -> reads h sets vsets ->
+    vunion_loop T eqb cmp draw acc vsets (tick h) = Ok (acc', t') ->
+    exists h', h_union_loop T zero grow eqb cmp draw h t sets = Ok h' /\ wfh h' /\
+      abs h' = set_nth (abs h) t acc' /\ tick h' = t' /\ length (objs h') = length (objs h).
+  Proof.
+    induction sets as [|x sets IH]; intros vsets h t acc acc' t' W Ht Hn HR Hv; inversion HR as [|? sx ? vsets' Hx HR']; subst; simpl in *.
+    - inversion Hv; subst. exists h. split; [reflexivity|]. split; [exact W|]. split; [now apply set_nth_same'|auto].
+    - destruct (vall T draw sx (tick h)) as [[ms t1]| |] eqn:Ea; simpl in Hv; try discriminate.
+      destruct (vadd T eqb cmp acc ms) as [acc1| |] eqn:Eadd; simpl in Hv; try discriminate.
+      rewrite (h_all_sim h x sx ms t1 W Hx Ea). simpl.
+      destruct (h_add_sim ms (with_tick h t1) t acc acc1 W Ht Eadd) as (h2 & H2 & W2 & A2 & T2 & L2).
+      rewrite H2. simpl.
+      assert (Ht2 : nth_error (abs h2) t = Some acc1) by (rewrite A2; eapply nth_error_set_nth_eq'; eauto).
+      assert (HR2 : reads h2 sets vsets') by (eapply (reads_other (with_tick h t1)); eauto).
+      simpl in T2. rewrite <- T2 in Hv.
+      destruct (IH vsets' h2 t acc1 acc' t' W2 Ht2 ltac:(tauto) HR2 Hv) as (h3 & H3 & W3 & A3 & T3 & L3).
+      exists h3. split; [exact H3|]. split; [exact W3|]. split; [|split; [exact T3|simpl in L2; congruence]].
+      rewrite A3, A2. apply set_nth_set_nth.
+  Qed.
+
+  Lemma h_diff_loop_sim : forall sets vsets h t acc acc' t', wfh h -> nth_error (abs h) t = Some acc ->
+    ~ In t sets -> reads h sets vsets ->
+    vdiff_loop T eqb cmp draw acc vsets (tick h) = Ok (acc', t') ->
+    exists h', h_diff_loop T zero grow eqb cmp draw h t sets = Ok h' /\ wfh h' /\
+      abs h' = set_nth (abs h) t acc' /\ tick h' = t' /\ length (objs h') = length (objs h).
+  Proof.
+    induction sets as [|x sets IH]; intros vsets h t acc acc' t' W Ht Hn HR Hv; inversion HR as [|? sx ? vsets' Hx HR']; subst; simpl in *.
+    - inversion Hv; subst. exists h. split; [reflexivity|]. split; [exact W|]. split; [now apply set_nth_same'|auto].
+    - destruct (vall T draw sx (tick h)) as [[ms t1]| |] eqn:Ea; simpl in Hv; try discriminate.
+      destruct (vremove T eqb cmp acc ms) as [acc1| |] eqn:Eadd; simpl in Hv; try discriminate.
+      rewrite (h_all_sim h x sx ms t1 W Hx Ea). simpl.
+      destruct (h_remove_sim ms (with_tick h t1) t acc acc1 W Ht Eadd) as (h2 & H2 & W2 & A2 & T2 & L2).
+      rewrite H2. simpl.
+      assert (Ht2 : nth_error (abs h2) t = Some acc1) by (rewrite A2; eapply nth_error_set_nth_eq'; eauto).
+      assert (HR2 : reads h2 sets vsets') by (eapply (reads_other (with_tick h t1)); eauto).
+      simpl in T2. rewrite <- T2 in Hv.
+      destruct (IH vsets' h2 t acc1 acc' t' W2 Ht2 ltac:(tauto) HR2 Hv) as (h3 & H3 & W3 & A3 & T3 & L3).
+      exists h3. split; [exact H3|]. split; [exact W3|]. split; [|split; [exact T3|simpl in L2; congruence]].
+      rewrite A3, A2. apply set_nth_set_nth.
+  Qed.
+
+  Lemma not_in_fresh : forall h sets vsets, reads h sets vsets -> ~ In (length (objs h)) sets.
+  Proof. intros h sets vsets HR Hc. pose proof (reads_lt h sets vsets _ HR Hc). lia. Qed.
+
+  Theorem h_union_sim : forall h s sets ss vsets u t', wfh h -> nth_error (abs h) s = Some ss ->
+    reads h sets vsets -> vunion T eqb cmp draw ss vsets (tick h) = Ok (u, t') ->
+    exists h', h_union T zero grow eqb cmp draw h s sets = Ok (length (objs h), h') /\ wfh h' /\
+      abs h' = abs h ++ [u] /\ tick h' = t'.
+  Proof.
+    intros h s sets ss vsets u t' W Hs HR Hv. unfold h_union, vunion in *.
+    destruct (h_clone_sim h s ss W Hs) as (h1 & H1 & W1 & A1 & T1). rewrite H1. simpl.
+    assert (Ht : nth_error (abs h1) (length (objs h)) = Some (vclone T ss)).
+    { rewrite A1, <- abs_length. apply nth_error_app_last. }
+    rewrite <- T1 in Hv.
+    destruct (h_union_loop_sim sets vsets h1 (length (objs h)) _ u t' W1 Ht (not_in_fresh h sets vsets HR)
+                (reads_app h h1 sets vsets _ HR A1) Hv) as (h2 & H2 & W2 & A2 & T2 & L2).
+    rewrite H2. simpl. eexists; split; [reflexivity|]. split; [exact W2|]. split; [|exact T2].
+    rewrite A2, A1, <- abs_length. apply set_nth_app_last.
+  Qed.
+
+  Theorem h_difference_sim : forall h s sets ss vsets u t', wfh h -> nth_error (abs h) s = Some ss ->
+    reads h sets vsets -> vdifference T eqb cmp draw ss vsets (tick h) = Ok (u, t') ->
+    exists h', h_difference T zero grow eqb cmp draw h s sets = Ok (length (objs h), h') /\ wfh h' /\
+      abs h' = abs h ++ [u] /\ tick h' = t'.
+  Proof.
+    intros h s sets ss vsets u t' W Hs HR Hv. unfold h_difference, vdifference in *.
+    destruct (h_clone_sim h s ss W Hs) as (h1 & H1 & W1 & A1 & T1). rewrite H1. simpl.
+    assert (Ht : nth_error (abs h1) (length (objs h)) = Some (vclone T ss)).
+    { rewrite A1, <- abs_length. apply nth_error_app_last. }
+    rewrite <- T1 in Hv.
+    destruct (h_diff_loop_sim sets vsets h1 (length (objs h)) _ u t' W1 Ht (not_in_fresh h sets vsets HR)
+                (reads_app h h1 sets vsets _ HR A1) Hv) as (h2 & H2 & W2 & A2 & T2 & L2).
+    rewrite H2. simpl. eexists; split; [reflexivity|]. split; [exact W2|]. split; [|exact T2].
+    rewrite A2, A1, <- abs_length. apply set_nth_app_last.
+  Qed.
+
+  Lemma h_in_all_sim : forall sets vsets h m, wfh h -> reads h sets vsets ->
+    h_in_all T eqb cmp h sets m = in_all T eqb cmp vsets m.
+  Proof.
+    induction sets as [|x sets IH]; intros vsets h m W HR; inversion HR as [|? sx ? vsets' Hx HR']; subst; simpl; [reflexivity|].
+    rewrite (h_contains_sim h x sx [m] W Hx). destruct (vcontains T eqb cmp sx [m]) as [[|]| |]; simpl; auto.
+  Qed.
+
+  Lemma h_inter_loop_sim : forall ms sets vsets h t acc acc', wfh h -> nth_error (abs h) t = Some acc ->
+    ~ In t sets -> reads h sets vsets ->
+    vinter_loop T eqb cmp acc ms vsets = Ok acc' ->
+    exists h', h_inter_loop T zero grow eqb cmp h t ms sets = Ok h' /\ wfh h' /\
+      abs h' = set_nth (abs h) t acc' /\ tick h' = tick h /\ length (objs h') = length (objs h).
+  Proof.
+    induction ms as [|m ms IH]; intros sets vsets h t acc acc' W Ht Hn HR Hv; simpl in *.
+    - inversion Hv; subst. exists h. split; [reflexivity|]. split; [exact W|]. split; [now apply set_nth_same'|auto].
+    - rewrite (h_in_all_sim sets vsets h m W HR).
+      destruct (in_all T eqb cmp vsets m) as [b| |]; simpl in *; try discriminate.
+      destruct b.
+      + destruct (vadd1 T eqb cmp acc m) as [acc1| |] eqn:E1; simpl in Hv; try discriminate.
+        destruct (h_add1_sim h t m acc acc1 W Ht E1) as (h1 & H1 & W1 & A1 & T1 & L1). rewrite H1. simpl.
+        assert (Ht1 : nth_error (abs h1) t = Some acc1) by (rewrite A1; eapply nth_error_set_nth_eq'; eauto).
+        destruct (IH sets vsets h1 t acc1 acc' W1 Ht1 Hn (reads_other h h1 t acc1 sets vsets HR Hn A1) Hv)
+          as (h2 & H2 & W2 & A2 & T2 & L2).
+        exists h2. split; [exact H2|]. split; [exact W2|]. split; [|split; congruence].
+        rewrite A2, A1. apply set_nth_set_nth.
+      + apply (IH sets vsets h t acc acc' W Ht Hn HR Hv).
+  Qed.
+
+  Theorem h_intersection_sim : forall h s sets ss vsets u, wfh h -> nth_error (abs h) s = Some ss ->
+    reads h sets vsets -> vintersection T eqb cmp ss vsets = Ok u ->
+    exists h', h_intersection T zero grow eqb cmp h s sets = Ok (length (objs h), h') /\ wfh h' /\
+      abs h' = abs h ++ [u] /\ tick h' = tick h.
+  Proof.
+    intros h s sets ss vsets u W Hs HR Hv. unfold h_intersection, vintersection in *.
+    destruct (h_cloneEmpty_sim h s ss W Hs) as (h1 & H1 & W1 & A1 & T1). rewrite H1. simpl.
+    assert (Ht : nth_error (abs h1) (length (objs h)) = Some (vcloneEmpty T ss)).
+    { rewrite A1, <- abs_length. apply nth_error_app_last. }
+    assert (Hs1 : nth_error (abs h1) s = Some ss).
+    { rewrite A1, nth_error_app1; [exact Hs|]. apply nth_error_Some. congruence. }
+    rewrite (proj1 (h_members_sim h1 s ss W1 Hs1)). simpl.
+    destruct (h_inter_loop_sim (vm ss) sets vsets h1 (length (objs h)) _ u W1 Ht (not_in_fresh h sets vsets HR)
+                (reads_app h h1 sets vsets _ HR A1) Hv) as (h2 & H2 & W2 & A2 & T2 & L2).
+    rewrite H2. simpl. eexists; split; [reflexivity|]. split; [exact W2|]. split; [|congruence].
+    rewrite A2, A1, <- abs_length. apply set_nth_app_last.
+  Qed.
+
+  Theorem h_selectMatch_sim : forall h s ss p u, wfh h -> nth_error (abs h) s = Some ss ->
+    vselectMatch T eqb cmp ss p = Ok u ->
+    exists h', h_selectMatch T zero grow eqb cmp h s p = Ok (length (objs h), h') /\ wfh h' /\
+      abs h' = abs h ++ [u] /\ tick h' = tick h.
+  Proof.
+    intros h s ss p u W Hs Hv. unfold h_selectMatch, vselectMatch in *.
+    destruct (h_cloneEmpty_sim h s ss W Hs) as (h1 & H1 & W1 & A1 & T1). rewrite H1. simpl.
+    assert (Ht : nth_error (abs h1) (length (objs h)) = Some (vcloneEmpty T ss)).
+    { rewrite A1, <- abs_length. apply nth_error_app_last. }
+    assert (Hs1 : nth_error (abs h1) s = Some ss).
+    { rewrite A1, nth_error_app1; [exact Hs|]. apply nth_error_Some. congruence. }
+    rewrite (proj1 (h_members_sim h1 s ss W1 Hs1)). simpl.
+    destruct (h_add_sim (filter p (vm ss)) h1 (length (objs h)) _ u W1 Ht Hv) as (h2 & H2 & W2 & A2 & T2 & L2).
+    rewrite H2. simpl. eexists; split; [reflexivity|]. split; [exact W2|]. split; [|congruence].
+    rewrite A2, A1, <- abs_length. apply set_nth_app_last.
+  Qed.
+
+  Lemma set_nth_comm : forall (l : list vset) i j x y, i <> j ->
+    set_nth (set_nth l i x) j y = set_nth (set_nth l j y) i x.
+  Proof.
+    induction l as [|a l IH]; intros [|i] [|j] x y H; simpl; auto; try congruence. f_equal. apply IH. congruence.
+  Qed.
+
+  Lemma h_part_loop_sim : forall ms h a b p sa sb sa' sb', wfh h -> a <> b ->
+    nth_error (abs h) a = Some sa -> nth_error (abs h) b = Some sb ->
+    vadd T eqb cmp sa (filter p ms) = Ok sa' ->
+    vadd T eqb cmp sb (filter (fun x => negb (p x)) ms) = Ok sb' ->
+    exists h', h_part_loop T zero grow eqb cmp h a b p ms = Ok h' /\ wfh h' /\
+      abs h' = set_nth (set_nth (abs h) a sa') b sb' /\ tick h' = tick h /\ length (objs h') = length (objs h).
+  Proof.
+    induction ms as [|m ms IH]; intros h a b p sa sb sa' sb' W Hab Ha Hb Hva Hvb; simpl in *.
+    - inversion Hva; inversion Hvb; subst. exists h. split; [reflexivity|]. split; [exact W|]. split; [|auto].
+      rewrite (set_nth_same _ (abs h) a sa' Ha). now apply set_nth_same'.
+    - destruct (p m) eqn:Ep; simpl in *.
+      + destruct (vadd1 T eqb cmp sa m) as [sa1| |] eqn:E1; simpl in Hva; try discriminate.
+        destruct (h_add1_sim h a m sa sa1 W Ha E1) as (h1 & H1 & W1 & A1 & T1 & L1). rewrite H1. simpl.
+        assert (Ha1 : nth_error (abs h1) a = Some sa1) by (rewrite A1; eapply nth_error_set_nth_eq'; eauto).
+        assert (Hb1 : nth_error (abs h1) b = Some sb) by (rewrite A1, nth_error_set_nth_neq by congruence; exact Hb).
+        destruct (IH h1 a b p sa1 sb sa' sb' W1 Hab Ha1 Hb1 Hva Hvb) as (h2 & H2 & W2 & A2 & T2 & L2).
+        exists h2. split; [exact H2|]. split; [exact W2|]. split; [|split; congruence].
+        rewrite A2, A1, set_nth_set_nth. reflexivity.
+      + destruct (vadd1 T eqb cmp sb m) as [sb1| |] eqn:E1; simpl in Hvb; try discriminate.
+        destruct (h_add1_sim h b m sb sb1 W Hb E1) as (h1 & H1 & W1 & A1 & T1 & L1). rewrite H1. simpl.
+        assert (Hb1 : nth_error (abs h1) b = Some sb1) by (rewrite A1; eapply nth_error_set_nth_eq'; eauto).
+        assert (Ha1 : nth_error (abs h1) a = Some sa) by (rewrite A1, nth_error_set_nth_neq by congruence; exact Ha).
+        destruct (IH h1 a b p sa sb1 sa' sb' W1 Hab Ha1 Hb1 Hva Hvb) as (h2 & H2 & W2 & A2 & T2 & L2).
+        exists h2. split; [exact H2|]. split; [exact W2|]. split; [|split; congruence].
+        rewrite A2, A1. rewrite (set_nth_comm (abs h) b a sb1 sa') by congruence. now rewrite set_nth_set_nth.
+  Qed.
+
+  Theorem h_partitionMatch_sim : forall h s ss p ua ub, wfh h -> nth_error (abs h) s = Some ss ->
+    vpartitionMatch T eqb cmp ss p = Ok (ua, ub) ->
+    exists h', h_partitionMatch T zero grow eqb cmp h s p = Ok (length (objs h), S (length (objs h)), h') /\ wfh h' /\
+      abs h' = abs h ++ [ua; ub] /\ tick h' = tick h.
+  Proof.
+    intros h s ss p ua ub W Hs Hv. unfold h_partitionMatch, vpartitionMatch in *.
+    destruct (vadd T eqb cmp (vcloneEmpty T ss) (filter p (vm ss))) as [xa| |] eqn:Ea; simpl in Hv; try discriminate.
+    destruct (vadd T eqb cmp (vcloneEmpty T ss) (filter (fun x => negb (p x)) (vm ss))) as [xb| |] eqn:Eb; simpl in Hv; try discriminate.
+    inversion Hv; subst xa xb. clear Hv.
+    destruct (h_cloneEmpty_sim h s ss W Hs) as (h1 & H1 & W1 & A1 & T1). rewrite H1. simpl.
+    assert (Hs1 : nth_error (abs h1) s = Some ss).
+    { rewrite A1, nth_error_app1; [exact Hs|]. apply nth_error_Some. congruence. }
+    destruct (h_cloneEmpty_sim h1 s ss W1 Hs1) as (h2 & H2 & W2 & A2 & T2). rewrite H2. simpl.
+    assert (L1 : length (objs h1) = S (length (objs h))).
+    { rewrite <- !abs_length, A1, app_length. simpl. lia. }
+    rewrite L1 in *.
+    assert (Hs2 : nth_error (abs h2) s = Some ss).
+    { rewrite A2, nth_error_app1; [exact Hs1|]. apply nth_error_Some. congruence. }
+    rewrite (proj1 (h_members_sim h2 s ss W2 Hs2)). simpl.
+    assert (Ha2 : nth_error (abs h2) (length (objs h)) = Some (vcloneEmpty T ss)).
+    { rewrite A2, A1, <- app_assoc, <- abs_length. simpl. rewrite nth_error_app2, Nat.sub_diag by lia. reflexivity. }
+    assert (Hb2 : nth_error (abs h2) (S (length (objs h))) = Some (vcloneEmpty T ss)).
+    { rewrite A2, A1, <- abs_length. rewrite nth_error_app2 by (rewrite app_length; simpl; lia).
+      rewrite app_length. cbn [length]. replace (S (length (abs h)) - (length (abs h) + 1)) with 0 by lia. reflexivity. }
+    destruct (h_part_loop_sim (vm ss) h2 (length (objs h)) (S (length (objs h))) p _ _ ua ub W2 ltac:(lia) Ha2 Hb2 Ea Eb)
+      as (h3 & H3 & W3 & A3 & T3 & L3).
+    rewrite H3. simpl. eexists; split; [reflexivity|]. split; [exact W3|]. split; [|congruence].
+    rewrite A3, A2, A1, <- app_assoc, <- abs_length. simpl.
+    clear. induction (abs h) as [|x l IH]; simpl; [reflexivity|]. f_equal. exact IH.
   Qed.
 End HeapProofs.
